@@ -73,6 +73,10 @@ checks = {
    technique="exhaustive enumeration of structured rule descriptions (target / operator-argument / action-value axes over delimiter-rich alphabets) x equivalent renderings (case, quoting, spacing, continuations at every token boundary, CRLF, comments, Include / nested / glob file splitting, final newline, 70 kB lines) x single-delimiter deletions and duplications; every text compiled by the real parser and characterised by a behavioural signature (rule observer metadata + probe battery) compared with the signature derived from the description",
    text="All renderings of one description must compile to the description's signature; a near-miss text must either be rejected or compile to exactly what a strict reference reader makes of it - never silently to something else or to fewer rules.",
    note="Trusted: the reference reader and signature derivation in go/c16. Not covered: raw double quotes and backslashes in action values, chains, SecDefaultAction, XPath keys. Two open known findings (slash inside a plain key turns it into a regex; an unclosed single quote in the action list only warns)."),
+ "C20": dict(level="fault_enumeration", design="§3 C20", engine="mc + vos fault shim",
+   technique="exhaustive single-fault (quick) / double-fault (thorough) enumeration over every file-system operation a base transaction performs (the os calls of corazawaf, bodyprocessors and auditlog are selector-redirected to a shim that asks the explorer 'succeed, fail, or short write?'), plus abandonment after every API call; each execution on the real code with private temp/upload/audit directories",
+   text="For 24 base transactions (memory / spilled / partial / rejected bodies, multipart uploads under all keep-files modes, malformed bodies, response bodies, interruption in each phase, audit through the real serial and concurrent writers): no panic, every injected failure surfaces as a returned error, an error variable or an Error-level log record, no temp or upload file is left after Close unless retention applies, descriptors return to baseline, and a probe on the recycled object equals the fresh outcome.",
+   note="Trusted: fault points = package os operations used by the three packages (a failing operation is not performed). Network audit writers (https, syslog) are not covered."),
 }
 not_applicable = {}
 
